@@ -76,6 +76,15 @@ int xmp_start_smix(xmp_context opaque, int chn, int smp)
 		return -XMP_ERROR_STATE;
 	}
 
+	if (chn < 0 || chn > XMP_MAX_CHANNELS || smp < 0 || smp > 255) {
+		return -XMP_ERROR_INVALID;
+	}
+
+	/* Already started: release the previous tables first */
+	if (smix->xxi != NULL || smix->xxs != NULL) {
+		xmp_end_smix(opaque);
+	}
+
 	smix->xxi = (struct xmp_instrument *) calloc(smp, sizeof(struct xmp_instrument));
 	if (smix->xxi == NULL) {
 		goto err;
